@@ -104,7 +104,7 @@ m = {
               "kind_free_text": "deterministic simulator (seeded scheduler, simulated network/storage/RNG, fault injection) running the real frost crates; Python reference model under /verif/ref"}],
  "checks": checks,
  "not_applicable": na,
- "notes": "Exit codes: 0 held, 1 violation (VIOLATION line + replay file), 2 harness error. VERIF_SEED and VERIF_TIER honoured. C01, C06, C07, C10, C11, C17 run a second, smaller batch on a build without debug assertions / overflow checks (DESIGN.md §0.1). See DESIGN.md §6 for what this technique cannot reach and §0.4 for which checks catch which seeded changes.",
+ "notes": "Exit codes: 0 held, 1 violation (VIOLATION line + replay file), 2 harness error. VERIF_SEED and VERIF_TIER honoured. Every check runs a second, smaller batch (a quarter of the runs) on a build without debug assertions / overflow checks (DESIGN.md §0.1). See DESIGN.md §6 for what this technique cannot reach and §0.4 for which checks catch which seeded changes.",
 }
 json.dump(m, open(f"{V}/MANIFEST.json", "w"), indent=1)
 print("wrote MANIFEST.json with", len(checks), "checks,", len(na), "not_applicable")
